@@ -1131,14 +1131,21 @@ func c09Prepare(x *c09Hist) (*c09PruneRun, bool) {
 }
 
 func streamC09(h *H) {
-	nh := h.N(4, 32)
+	nh := h.N(8, 32)
 	nopt := 3
 	if h.Thorough() {
 		nopt = 5
 	}
 	for i := 0; i < nh; i++ {
 		var x *c09Hist
-		if panicked, msg := Protect(func() { x = c09GenHistory(h) }); panicked {
+		if panicked, msg := Protect(func() {
+			if i == 0 && h.Shard == 0 {
+				// one directed history per run (prune has exactly one kind of work), kind rotates with the seed
+				x = c09DirectedHistory(h, c09DirectedKinds[int(h.Seed%int64(len(c09DirectedKinds))+int64(len(c09DirectedKinds)))%len(c09DirectedKinds)])
+			} else {
+				x = c09GenHistory(h)
+			}
+		}); panicked {
 			h.Case("skip")
 			h.Rec("why", "history-generation-failed", HexS(msg[:min(len(msg), 200)]))
 			h.End()
@@ -1167,9 +1174,7 @@ func streamC09(h *H) {
 			}
 			// single failing operations (not crashes); lock operations are not interesting targets
 			for k := 1; k < m-1; k++ {
-				if h.Thorough() || k%2 == 0 {
-					c09FaultCase(h, run, k, h.Thorough() || k%4 == 0)
-				}
+				c09FaultCase(h, run, k, h.Thorough() || k%3 == 0)
 			}
 		}
 		x.Close()
@@ -1183,7 +1188,7 @@ func streamC10(h *H) {
 		c09SynthCase(h, 1000000+i, true)
 	}
 	// (b) completed full prunes of real histories: after-state and reported statistics
-	nh := h.N(8, 120)
+	nh := h.N(12, 120)
 	for i := 0; i < nh; i++ {
 		var x *c09Hist
 		// the first histories of every shard are directed ones (prune has exactly one kind of work);
